@@ -124,7 +124,8 @@ def cmd_regress(a):
         mp = os.path.join(base, name, 'meta.json')
         if not os.path.exists(mp):
             continue
-        prop = json.load(open(mp)).get('property', name)
+        meta_ = json.load(open(mp))
+        prop = meta_.get('regress_check') or meta_.get('property', name)
         d = scratch_copy(name)
         try:
             pfile = os.path.join(base, name, 'patch_rebased.diff')
